@@ -371,6 +371,8 @@ impl CanonicalRequest {
         }, //# C19 C13 C05 name=first_algorithm_parameter_is_used
         r is Ok ==> requirements_met(r->Ok_0.signed(), self.hview(), signed_header_requirements.always_spec(),
             signed_header_requirements.if_in_request_spec(), signed_header_requirements.prefixes_spec()), //# C05 name=accepted_only_if_every_required_header_is_signed
+        r is Ok ==> self.carrier_selected(r->Ok_0), //# C19 name=exactly_one_carrier_selected
+        r is Err ==> (r->Err_0 is SignatureDoesNotMatch || r->Err_0 is MissingAuthenticationToken || r->Err_0 is IncompleteSignature), //# C13 name=rules_5_to_8_error_kinds
 //@ bodystart
     hide(CanonicalRequest::header_carrier_ok);
     hide(CanonicalRequest::header_carrier_fails);
@@ -439,5 +441,65 @@ impl CanonicalRequest {
                     assert(self.headers@.contains_key(ks) && str_bytes(ks@) == k);
                 }
             }
+//@ end
+
+//@ fn canonical.rs impl CanonicalRequest :: get_authenticator_from_auth_parameters
+//@ props C08 C01 C13 C16 C04
+//@ ret r
+//   (Verus rejects `_` as a closure parameter)
+//@ replace 1 `.map_err(|_| {` => `.map_err(|_e| -> (e2: SignatureError) ensures e2 is IncompleteSignature {`
+//@ spec
+    requires
+        self.wf(),
+        auth_params.builder.credential is Some, auth_params.builder.signature is Some, //# C08 name=builder_complete_before_build
+    ensures
+        iso_instant(str_bytes(auth_params.timestamp_str@)) is None ==> r is Err && r->Err_0 is IncompleteSignature, //# C13 C16 name=rule_9_bad_date_is_incomplete_signature
+        iso_instant(str_bytes(auth_params.timestamp_str@)) is Some ==> r is Ok && {
+            let a = r->Ok_0;
+            &&& a.ts() == iso_instant(str_bytes(auth_params.timestamp_str@))->Some_0
+            &&& a.cred() == str_bytes(auth_params.builder.credential->Some_0@)
+            &&& a.sig() == str_bytes(auth_params.builder.signature->Some_0@)
+            &&& a.token() == (if auth_params.builder.session_token is Some { auth_params.builder.session_token->Some_0 } else { None::<String> })
+            &&& exists|c: Seq<u8>| self.is_creq(auth_params.signed(), c) && a.creq_hash() == spec_sha256(c)
+        }, //# C01 C16 C04 name=authenticator_carries_the_extracted_values_and_the_creq_hash
+//@ end
+
+    pub proof fn lemma_carrier_selected_builder(&self, p: AuthParams)
+        requires self.carrier_selected(p)
+        ensures p.builder.credential is Some, p.builder.signature is Some
+    {}
+    /// rules 5-9 all pass and `a` carries exactly what the selected carrier supplied (C01, C05, C16, C19)
+    pub open spec fn authenticator_ok(&self, always: Seq<Seq<u8>>, ifreq: Seq<Seq<u8>>, prefixes: Seq<Seq<u8>>, a: SigV4Authenticator) -> bool {
+        exists|p: AuthParams| {
+            &&& #[trigger] self.carrier_selected(p)
+            &&& requirements_met(p.signed(), self.hview(), always, ifreq, prefixes)
+            &&& p.builder.credential is Some && a.cred() == str_bytes(p.builder.credential->Some_0@)
+            &&& p.builder.signature is Some && a.sig() == str_bytes(p.builder.signature->Some_0@)
+            &&& a.token() == (if p.builder.session_token is Some { p.builder.session_token->Some_0 } else { None::<String> })
+            &&& iso_instant(str_bytes(p.timestamp_str@)) == Some(a.ts())
+            &&& exists|c: Seq<u8>| self.is_creq(p.signed(), c) && a.creq_hash() == spec_sha256(c)
+        }
+    }
+
+//@ fn canonical.rs impl CanonicalRequest :: get_authenticator
+//@ props C08 C01 C05 C13 C16 C19
+//@ ret r
+//@ spec
+    requires
+        self.wf(),
+        forall|i: int| 0 <= i < signed_header_requirements.always_spec().len() ==> all_ascii(#[trigger] signed_header_requirements.always_spec()[i]),
+        forall|i: int| 0 <= i < signed_header_requirements.if_in_request_spec().len() ==> all_ascii(#[trigger] signed_header_requirements.if_in_request_spec()[i]),
+        forall|i: int| 0 <= i < signed_header_requirements.prefixes_spec().len() ==> all_ascii(#[trigger] signed_header_requirements.prefixes_spec()[i]),
+    ensures
+        r is Ok ==> self.authenticator_ok(signed_header_requirements.always_spec(), signed_header_requirements.if_in_request_spec(),
+            signed_header_requirements.prefixes_spec(), r->Ok_0), //# C01 C05 C16 C19 name=authenticator_built_from_the_selected_carrier
+        r is Err ==> (r->Err_0 is SignatureDoesNotMatch || r->Err_0 is MissingAuthenticationToken || r->Err_0 is IncompleteSignature), //# C13 name=rules_5_to_9_error_kinds
+//@ bodystart
+    hide(CanonicalRequest::carrier_selected);
+    hide(requirements_met);
+    hide(CanonicalRequest::is_creq);
+//@ before 1 `self.get_authenticator_from_auth_parameters(auth_params)`
+    let ghost p0 = auth_params;
+    proof { self.lemma_carrier_selected_builder(auth_params); }
 //@ end
 }
